@@ -230,6 +230,10 @@ mutual
       | _, _ => none
 end
 
+def isNoneLeaf : Tree → Bool
+  | .leaf .none => true
+  | _ => false
+
 def ulookup (k : Str) : List (Key × U) → Option U
   | [] => none
   | (l, v) :: r => if l = .s k then some v else ulookup k r
@@ -306,155 +310,214 @@ def keysIn (allowed : List Str) (kw : List (Key × U)) : Bool :=
     | .s k => allowed.contains k
     | .i _ => false
 
+def buildClass (kw : List (Key × U)) : R U :=
+  match ulookup kName kw with
+  | some (.leaf (.str n)) => .ok (.cls n)
+  | _ => .error .key
+
+def buildAny (kw : List (Key × U)) : R U :=
+  if !keysIn [kDefault, kFrozen] kw then .error .type else
+  -- `Any.__init__` passes `is_noneable=True` (value_specs.py:2990)
+  (gFlags kw).map fun f => .spec (.any ⟨true, f.default, f.frozen⟩)
+
+def buildBool (kw : List (Key × U)) : R U :=
+  if !keysIn [kDefault, kNoneable, kFrozen] kw then .error .type else
+  (gFlags kw).map fun f => .spec (.bool f)
+
+def buildInt (kw : List (Key × U)) : R U :=
+  if !keysIn [kDefault, kMin, kMax, kNoneable, kFrozen] kw then .error .type else
+  match gFlags kw, gOptInt kw kMin, gOptInt kw kMax with
+  | .ok f, .ok lo, .ok hi => .ok (.spec (.int lo hi f))
+  | .error e, _, _ => .error e
+  | _, .error e, _ => .error e
+  | _, _, .error e => .error e
+
+def buildFloat (kw : List (Key × U)) : R U :=
+  if !keysIn [kDefault, kMin, kMax, kNoneable, kFrozen] kw then .error .type else
+  match gFlags kw, gOptFloat kw kMin, gOptFloat kw kMax with
+  | .ok f, .ok lo, .ok hi => .ok (.spec (.float lo hi f))
+  | .error e, _, _ => .error e
+  | _, .error e, _ => .error e
+  | _, _, .error e => .error e
+
+def buildStr (kw : List (Key × U)) : R U :=
+  if !keysIn [kDefault, kRegex, kNoneable, kFrozen] kw then .error .type else
+  match gFlags kw, gOptStr kw kRegex with
+  | .ok f, .ok r => .ok (.spec (.str r f))
+  | .error e, _ => .error e
+  | _, .error e => .error e
+
+def buildEnum (kw : List (Key × U)) : R U :=
+  if !keysIn [kDefault, kValues, kFrozen] kw then .error .type else
+  match gFlags kw, ulookup kValues kw with
+  | .ok f, some (.arr us) =>
+    match uPlainL us with
+    | some vals =>
+      -- `is_noneable = any(v is None for v in values)` (value_specs.py:925)
+      .ok (.spec (.enum vals ⟨vals.any isNoneLeaf, f.default, f.frozen⟩))
+    | none => .error .type
+  | .ok _, _ => .error .value               -- "Values for Enum should be a non-empty list"
+  | .error e, _ => .error e
+
+def buildList (kw : List (Key × U)) : R U :=
+  if !keysIn [kElem, kDefault, kMinSize, kMaxSize, kNoneable, kFrozen] kw then .error .type else
+  match gSpec kw kElem, gFlags kw, gOptInt kw kMinSize, gOptInt kw kMaxSize with
+  | .ok e, .ok f, .ok mn, .ok mx => .ok (.spec (.list e (mn.getD 0) mx f))
+  | .error e, _, _, _ => .error e
+  | _, .error e, _, _ => .error e
+  | _, _, .error e, _ => .error e
+  | _, _, _, .error e => .error e
+
+def buildTuple (kw : List (Key × U)) : R U :=
+  if !keysIn [kElems, kDefault, kMinSize, kMaxSize, kNoneable, kFrozen] kw then .error .type else
+  match gFlags kw, gOptInt kw kMinSize, gOptInt kw kMaxSize with
+  | .ok f, .ok mn, .ok mx =>
+    match ulookup kElems kw with
+    | some (.spec e) => .ok (.spec (.tupleVar e (mn.getD 0) mx f))
+    | some (.arr us) =>
+      match uSpecs us with
+      | some [] => .error .value            -- "Argument 'element_values' must be a non-empty list"
+      | some es => .ok (.spec (.tupleFixed es f))
+      | none => .error .type
+    | _ => .error .type
+  | .error e, _, _ => .error e
+  | _, .error e, _ => .error e
+  | _, _, .error e => .error e
+
+def buildDict (kw : List (Key × U)) : R U :=
+  if !keysIn [kSchema, kNoneable, kFrozen, kDefault] kw then .error .type else
+  match gFlags kw with
+  | .error e => .error e
+  | .ok f =>
+    match ulookup kSchema kw with
+    | none => .ok (.spec (.dict none f.default.isSome f))
+    | some (.schema sc) => .ok (.spec (.dict (some sc) f.default.isSome f))
+    | some _ => .error .type
+
+def buildObject (kw : List (Key × U)) : R U :=
+  if !keysIn [kT, kDefault, kNoneable, kFrozen] kw then .error .type else
+  match gCls kw kT, gFlags kw with
+  | .ok c, .ok f => .ok (.spec (.obj c f))
+  | .error e, _ => .error e
+  | _, .error e => .error e
+
+def buildType (kw : List (Key × U)) : R U :=
+  if !keysIn [kT, kDefault, kNoneable, kFrozen] kw then .error .type else
+  match gCls kw kT, gBool kw kNoneable, gBool kw kFrozen with
+  | .ok c, .ok n, .ok fz =>
+    match ulookup kDefault kw with
+    | none => .ok (.spec (.type c none n fz))
+    | some (.cls d) => .ok (.spec (.type c (some d) n fz))
+    | some _ => .error .type
+  | .error e, _, _ => .error e
+  | _, .error e, _ => .error e
+  | _, _, .error e => .error e
+
+def buildUnion (kw : List (Key × U)) : R U :=
+  if !keysIn [kCands, kDefault, kNoneable, kFrozen] kw then .error .type else
+  match gFlags kw, ulookup kCands kw with
+  | .ok f, some (.arr us) =>
+    match uSpecs us with
+    | some cs => .ok (.spec (.union cs f))
+    | none => .error .type
+  | .ok _, _ => .error .type
+  | .error e, _ => .error e
+
+def buildCallable (kw : List (Key × U)) : R U :=
+  if !keysIn [kArgs, kReturns, kDefault, kNoneable, kFrozen] kw then .error .type else
+  match gFlags kw, gOptSpec kw kReturns with
+  | .ok f, .ok r =>
+    match ulookup kArgs kw with
+    | none => .ok (.spec (.callable [] r f))
+    | some (.arr us) =>
+      match uSpecs us with
+      | some args => .ok (.spec (.callable args r f))
+      | none => .error .type
+    | some _ => .error .type
+  | .error e, _ => .error e
+  | _, .error e => .error e
+
+def buildConstKey (kw : List (Key × U)) : R U :=
+  match ulookup kText kw with
+  | some (.leaf (.str t)) => .ok (.key (.const t))
+  | _ => .error .type
+
+def buildStrKey (kw : List (Key × U)) : R U :=
+  (gOptStr kw kRegex).map fun r => .key (.strKey r)
+
+def buildListKey (kw : List (Key × U)) : R U :=
+  match gOptInt kw kMin, gOptInt kw kMax with
+  | .ok (some mn), .ok mx => .ok (.key (.listKey mn mx))
+  | .ok none, _ => .error .type
+  | .error e, _ => .error e
+  | _, .error e => .error e
+
+def buildTupleKey (kw : List (Key × U)) : R U :=
+  (gOptInt kw kIndex).map fun i => .key (.tupleKey i)
+
+def buildField (kw : List (Key × U)) : R U :=
+  if !keysIn [kKeySpec, kValueSpec, kDescription, kMetadata] kw then .error .type else
+  match ulookup kKeySpec kw, gSpec kw kValueSpec, gOptStr kw kDescription, gPlain kw kMetadata with
+  | some (.key k), .ok v, .ok d, .ok md => .ok (.field (.mk k v d md))
+  | _, .error e, _, _ => .error e
+  | _, _, .error e, _ => .error e
+  | _, _, _, .error e => .error e
+  | _, _, _, _ => .error .type
+
+def buildSchema (kw : List (Key × U)) : R U :=
+  if !keysIn [kFields, kName, kAllowNonConst, kMetadata] kw then .error .type else
+  match ulookup kFields kw, gOptStr kw kName, gBool kw kAllowNonConst, gPlain kw kMetadata with
+  | some (.arr us), .ok name, .ok anc, .ok md =>
+    match uFields us with
+    | some fs => .ok (.schema (.mk fs name anc md))
+    | none => .error .type
+  | _, .error e, _, _ => .error e
+  | _, _, .error e, _ => .error e
+  | _, _, _, .error e => .error e
+  | _, _, _, _ => .error .type
+
 /-- `cls(**kwargs)` for the class named by `_type`. -/
 def buildU (ty : Str) (kw : List (Key × U)) : R U :=
-  if ty = tyClass then
-    match ulookup kName kw with
-    | some (.leaf (.str n)) => .ok (.cls n)
-    | _ => .error .key
-  else if ty = tyAny then
-    if !keysIn [kDefault, kFrozen] kw then .error .type else
-    -- `Any.__init__` passes `is_noneable=True` (value_specs.py:2990)
-    (gFlags kw).map fun f => .spec (.any ⟨true, f.default, f.frozen⟩)
-  else if ty = tyBool then
-    if !keysIn [kDefault, kNoneable, kFrozen] kw then .error .type else
-    (gFlags kw).map fun f => .spec (.bool f)
-  else if ty = tyInt then
-    if !keysIn [kDefault, kMin, kMax, kNoneable, kFrozen] kw then .error .type else
-    match gFlags kw, gOptInt kw kMin, gOptInt kw kMax with
-    | .ok f, .ok lo, .ok hi => .ok (.spec (.int lo hi f))
-    | .error e, _, _ => .error e
-    | _, .error e, _ => .error e
-    | _, _, .error e => .error e
-  else if ty = tyFloat then
-    if !keysIn [kDefault, kMin, kMax, kNoneable, kFrozen] kw then .error .type else
-    match gFlags kw, gOptFloat kw kMin, gOptFloat kw kMax with
-    | .ok f, .ok lo, .ok hi => .ok (.spec (.float lo hi f))
-    | .error e, _, _ => .error e
-    | _, .error e, _ => .error e
-    | _, _, .error e => .error e
-  else if ty = tyStr then
-    if !keysIn [kDefault, kRegex, kNoneable, kFrozen] kw then .error .type else
-    match gFlags kw, gOptStr kw kRegex with
-    | .ok f, .ok r => .ok (.spec (.str r f))
-    | .error e, _ => .error e
-    | _, .error e => .error e
-  else if ty = tyEnum then
-    if !keysIn [kDefault, kValues, kFrozen] kw then .error .type else
-    match gFlags kw, ulookup kValues kw with
-    | .ok f, some (.arr us) =>
-      match uPlainL us with
-      | some vals =>
-        -- `is_noneable = any(v is None for v in values)` (value_specs.py:925)
-        .ok (.spec (.enum vals ⟨vals.any (fun v => match v with | .leaf .none => true | _ => false), f.default, f.frozen⟩))
-      | none => .error .type
-    | .ok _, _ => .error .value               -- "Values for Enum should be a non-empty list"
-    | .error e, _ => .error e
-  else if ty = tyList then
-    if !keysIn [kElem, kDefault, kMinSize, kMaxSize, kNoneable, kFrozen] kw then .error .type else
-    match gSpec kw kElem, gFlags kw, gOptInt kw kMinSize, gOptInt kw kMaxSize with
-    | .ok e, .ok f, .ok mn, .ok mx => .ok (.spec (.list e (mn.getD 0) mx f))
-    | .error e, _, _, _ => .error e
-    | _, .error e, _, _ => .error e
-    | _, _, .error e, _ => .error e
-    | _, _, _, .error e => .error e
-  else if ty = tyTuple then
-    if !keysIn [kElems, kDefault, kMinSize, kMaxSize, kNoneable, kFrozen] kw then .error .type else
-    match gFlags kw, gOptInt kw kMinSize, gOptInt kw kMaxSize with
-    | .ok f, .ok mn, .ok mx =>
-      match ulookup kElems kw with
-      | some (.spec e) => .ok (.spec (.tupleVar e (mn.getD 0) mx f))
-      | some (.arr us) =>
-        match uSpecs us with
-        | some [] => .error .value            -- "Argument 'element_values' must be a non-empty list"
-        | some es => .ok (.spec (.tupleFixed es f))
-        | none => .error .type
-      | _ => .error .type
-    | .error e, _, _ => .error e
-    | _, .error e, _ => .error e
-    | _, _, .error e => .error e
-  else if ty = tyDict then
-    if !keysIn [kSchema, kNoneable, kFrozen, kDefault] kw then .error .type else
-    match gFlags kw with
-    | .error e => .error e
-    | .ok f =>
-      match ulookup kSchema kw with
-      | none => .ok (.spec (.dict none f.default.isSome f))
-      | some (.schema sc) => .ok (.spec (.dict (some sc) f.default.isSome f))
-      | some _ => .error .type
-  else if ty = tyObject then
-    if !keysIn [kT, kDefault, kNoneable, kFrozen] kw then .error .type else
-    match gCls kw kT, gFlags kw with
-    | .ok c, .ok f => .ok (.spec (.obj c f))
-    | .error e, _ => .error e
-    | _, .error e => .error e
-  else if ty = tyType then
-    if !keysIn [kT, kDefault, kNoneable, kFrozen] kw then .error .type else
-    match gCls kw kT, gBool kw kNoneable, gBool kw kFrozen with
-    | .ok c, .ok n, .ok fz =>
-      match ulookup kDefault kw with
-      | none => .ok (.spec (.type c none n fz))
-      | some (.cls d) => .ok (.spec (.type c (some d) n fz))
-      | some _ => .error .type
-    | .error e, _, _ => .error e
-    | _, .error e, _ => .error e
-    | _, _, .error e => .error e
-  else if ty = tyUnion then
-    if !keysIn [kCands, kDefault, kNoneable, kFrozen] kw then .error .type else
-    match gFlags kw, ulookup kCands kw with
-    | .ok f, some (.arr us) =>
-      match uSpecs us with
-      | some cs => .ok (.spec (.union cs f))
-      | none => .error .type
-    | .ok _, _ => .error .type
-    | .error e, _ => .error e
-  else if ty = tyCallable then
-    if !keysIn [kArgs, kReturns, kDefault, kNoneable, kFrozen] kw then .error .type else
-    match gFlags kw, gOptSpec kw kReturns with
-    | .ok f, .ok r =>
-      match ulookup kArgs kw with
-      | none => .ok (.spec (.callable [] r f))
-      | some (.arr us) =>
-        match uSpecs us with
-        | some args => .ok (.spec (.callable args r f))
-        | none => .error .type
-      | some _ => .error .type
-    | .error e, _ => .error e
-    | _, .error e => .error e
-  else if ty = tyConstKey then
-    match ulookup kText kw with
-    | some (.leaf (.str t)) => .ok (.key (.const t))
-    | _ => .error .type
-  else if ty = tyStrKey then
-    (gOptStr kw kRegex).map fun r => .key (.strKey r)
-  else if ty = tyListKey then
-    match gOptInt kw kMin, gOptInt kw kMax with
-    | .ok (some mn), .ok mx => .ok (.key (.listKey mn mx))
-    | .ok none, _ => .error .type
-    | .error e, _ => .error e
-    | _, .error e => .error e
-  else if ty = tyTupleKey then
-    (gOptInt kw kIndex).map fun i => .key (.tupleKey i)
-  else if ty = tyField then
-    if !keysIn [kKeySpec, kValueSpec, kDescription, kMetadata] kw then .error .type else
-    match ulookup kKeySpec kw, gSpec kw kValueSpec, gOptStr kw kDescription, gPlain kw kMetadata with
-    | some (.key k), .ok v, .ok d, .ok md => .ok (.field (.mk k v d md))
-    | _, .error e, _, _ => .error e
-    | _, _, .error e, _ => .error e
-    | _, _, _, .error e => .error e
-    | _, _, _, _ => .error .type
-  else if ty = tySchema then
-    if !keysIn [kFields, kName, kAllowNonConst, kMetadata] kw then .error .type else
-    match ulookup kFields kw, gOptStr kw kName, gBool kw kAllowNonConst, gPlain kw kMetadata with
-    | some (.arr us), .ok name, .ok anc, .ok md =>
-      match uFields us with
-      | some fs => .ok (.schema (.mk fs name anc md))
-      | none => .error .type
-    | _, .error e, _, _ => .error e
-    | _, _, .error e, _ => .error e
-    | _, _, _, .error e => .error e
-    | _, _, _, _ => .error .type
+  if ty = tyClass then buildClass kw
+  else if ty = tyAny then buildAny kw
+  else if ty = tyBool then buildBool kw
+  else if ty = tyInt then buildInt kw
+  else if ty = tyFloat then buildFloat kw
+  else if ty = tyStr then buildStr kw
+  else if ty = tyEnum then buildEnum kw
+  else if ty = tyList then buildList kw
+  else if ty = tyTuple then buildTuple kw
+  else if ty = tyDict then buildDict kw
+  else if ty = tyObject then buildObject kw
+  else if ty = tyType then buildType kw
+  else if ty = tyUnion then buildUnion kw
+  else if ty = tyCallable then buildCallable kw
+  else if ty = tyConstKey then buildConstKey kw
+  else if ty = tyStrKey then buildStrKey kw
+  else if ty = tyListKey then buildListKey kw
+  else if ty = tyTupleKey then buildTupleKey kw
+  else if ty = tyField then buildField kw
+  else if ty = tySchema then buildSchema kw
   else .error .type                      -- not a pg.typing class: outside this decoder
+
+/-- An array: `['__tuple__']` alone is rejected when decoded (ValueError), otherwise element-wise. -/
+def finishArr : R (List U) → R U
+  | .ok [u] => if uIsMarker u then .error .value else .ok (.arr [u])
+  | .ok us => .ok (.arr us)
+  | .error e => .error e
+
+/-- An object, once its children are decoded: a dict, or `cls(**kwargs)` for the class in `_type`. -/
+def finishObj (kvs : List (Key × JV)) (r : R (List (Key × U))) : R U :=
+  match jlookup (.s typeKey) kvs with
+  | none =>
+    match r with
+    | .ok us => .ok (.dict us)
+    | .error e => .error e
+  | some (.str ty) =>
+    match r with
+    | .ok us => buildU ty (us.filter (fun p => p.1 != .s typeKey))
+    | .error e => .error e
+  | some _ => .error .type
 
 mutual
   def decodeU : JV → R U
@@ -463,22 +526,8 @@ mutual
     | .int i => .ok (.leaf (.int i))
     | .float t => .ok (.leaf (.float t))
     | .str s => .ok (.leaf (.str s))
-    | .arr xs =>
-      match decodeUL xs with
-      | .ok [u] => if uIsMarker u then .error .value else .ok (.arr [u])   -- `['__tuple__']`: ValueError
-      | .ok us => .ok (.arr us)
-      | .error e => .error e
-    | .obj kvs =>
-      match jlookup (.s typeKey) kvs with
-      | none =>
-        match decodeUKV kvs with
-        | .ok us => .ok (.dict us)
-        | .error e => .error e
-      | some (.str ty) =>
-        match decodeUKV kvs with
-        | .ok us => buildU ty (us.filter (fun p => p.1 != .s typeKey))
-        | .error e => .error e
-      | some _ => .error .type
+    | .arr xs => finishArr (decodeUL xs)
+    | .obj kvs => finishObj kvs (decodeUKV kvs)
   def decodeUL : List JV → R (List U)
     | [] => .ok []
     | x :: xs =>
